@@ -59,7 +59,6 @@ Q(id='C14.create_alphabet', props=['C14', 'C05'], cls='P', harness='c14_alphabet
   funcs=['create_alphabet', 'create_default_protein', 'create_protein_BZX', 'create_default_DNA', 'create_reduced_protein',
          'create_reduced_protein2', 'merge_codes', 'merge_multiple', 'clean_and_set_to_extern'],
   trusted=[TRUST_MSG], assumptions=[A_NOFAIL], native_srcs=['lib/src/tldevel.c'])
-PROPS['C14'] = dict(level='other', level_text='x', level_note='x', technique='x')
 Q(id='C05.convert_msa_to_internal', props=['C05', 'C14'], cls='P', harness='c05_convert.c', entry='h_c05_convert',
   mode='dfcc', loop_contracts=True, loops_files=['msa_op.convert.loops'], enforce=['convert_msa_to_internal'], replace=['create_alphabet'], unwind=130, timeout=900,
   defs=['-DKV_CONTRACT_CONVERT2'],
@@ -67,17 +66,23 @@ Q(id='C05.convert_msa_to_internal', props=['C05', 'C14'], cls='P', harness='c05_
   trusted=[TRUST_MSG, 'create_alphabet replaced by its contract (proved in C14.create_alphabet)'],
   assumptions=[A_NOFAIL, 'data invariant: residues stored in seq->seq[] are ASCII letters (established by the readers, see C04/C05 reader queries); instantiated for the ghost residue only',
                'sequence loop unwound for 2 sequences (each iteration independent); residue loop closed by invariant for any length'])
-PROPS['C05'] = dict(level='other', level_text='x', level_note='x', technique='x')
 
 # =========================================================================== C13 detect_alphabet
 A_LOG = 'LOG-axioms: libm log() assumed within 1e-9 of the mathematical value for the 5 constants detect_alphabet evaluates (contracts/stubs_log.h)'
 A_REPS = ('histogram restricted to 13 representative positions (3 letters shared by both models, U/u, 3 protein-only letters, 2 letters in neither model, 3 non-letter characters); '
           'each count symbolic in 0..4095 (quick) / 0..1e6 (thorough); the other 115 entries are 0')
+SOLVER_C13 = ['--sat-solver', 'cadical']
+A_REPS6 = ('histogram restricted to 6 representative positions, one or two per class of the two letter models (A and U: in both models; D, y: protein-only; B: letter in neither model; -: non-letter); '
+           'each count symbolic in 0..4095; the other 122 entries are 0')
 for pm in (1, 2):
     Q(id='C13.detect_alphabet.premise%d' % pm, props=['C13', 'C04'] + (['C14'] if pm == 1 else []), cls='B', harness='c13_detect_alphabet.c', entry='h_c13_detect',
-      mode='wrap', unwind=130, timeout=2400, defs=['-DKV_PREMISE=%d' % pm, '-DKV_MAXCOUNT=4095'], funcs=['detect_alphabet'],
+      mode='wrap', unwind=130, timeout=1500, defs=['-DKV_PREMISE=%d' % pm, '-DKV_MAXCOUNT=4095', '-DKV_C13_REPS6'], funcs=['detect_alphabet'],
+      solver=SOLVER_C13,
+      trusted=[TRUST_MSG], assumptions=[A_LOG, A_REPS6, A_FLOAT, A_WRAP], native_srcs=['lib/src/tldevel.c', 'lib/src/msa_alloc.c', 'lib/src/alphabet.c'])
+    Q(id='C13.detect_alphabet.premise%d.reps13' % pm, props=['C13', 'C04'], cls='B', harness='c13_detect_alphabet.c', entry='h_c13_detect', tier='thorough',
+      mode='wrap', unwind=130, timeout=7200, defs=['-DKV_PREMISE=%d' % pm, '-DKV_MAXCOUNT=4095'], funcs=['detect_alphabet'],
+      solver=SOLVER_C13,
       trusted=[TRUST_MSG], assumptions=[A_LOG, A_REPS, A_FLOAT, A_WRAP], native_srcs=['lib/src/tldevel.c', 'lib/src/msa_alloc.c', 'lib/src/alphabet.c'])
-PROPS['C13'] = dict(level='other', level_text='x', level_note='x', technique='x')
 
 # =========================================================================== C17
 Q(id='C17.compare_pair', props=['C17'], cls='P', harness='c17_compare_pair.c', entry='h_c17_compare_pair',
@@ -85,7 +90,6 @@ Q(id='C17.compare_pair', props=['C17'], cls='P', harness='c17_compare_pair.c', e
   funcs=['compare_pair'], trusted=[TRUST_MSG, 'isalpha: CBMC C-locale model (-D__NO_CTYPE)'],
   assumptions=[A_NOFAIL, 'row widths 1..1000 (KV_MAXW); counters below 2^60',
                'premise of C17 instantiated by a ghost assume between loops 2 and 3 of compare_pair: each row has the same number of residues in both alignments'])
-PROPS['C17'] = dict(level='other', level_text='x', level_note='x', technique='x')
 Q(id='C17.msa_compare.bound', props=['C17'], cls='P', harness='c17_msa_compare.c', entry='h_c17_bound', defs=['-DKV_STUB_CMP_CALLEES', '-DKV_N=3'],
   mode='dfcc', replace=['compare_pair'], loops_files=['msa_cmp.loops'], unwind=130, timeout=900, replayable=False,
   funcs=['kalign_msa_compare'],
@@ -114,7 +118,6 @@ Q(id='C11.bpm', props=['C11'], cls='P', harness='c11_bpm.c', entry='h_c11_bpm',
   assumptions=['text length 0..100000 (KV_MAXN, only bounds the size of the is_fresh object; the loop is closed by its invariant)',
                'data invariant instance: each text symbol read is < 13 (internal codes of the distance alphabets, proved at convert_msa_to_internal: s[j] < L, L <= 13)',
                'Sellers column recurrence (contracts/bpm.contracts.h) is taken as the definition of "minimum over all substrings of the edit distance"'])
-PROPS['C11'] = dict(level='other', level_text='x', level_note='x', technique='x')
 
 # =========================================================================== C01 / C10 weave
 def _lens_options(n, p):
@@ -155,8 +158,6 @@ Q(id='C01.weave', props=['C01', 'C10', 'C05'], cls='B', harness='c01_weave.c', e
   trusted=[TRUST_MSG, 'aln_runner replaced by its contract as a stub: writes ANY monotone partial matching into m->path (what the DP components of C07 establish)',
            'make_profile_n / set_gap_penalties_n / update_n replaced by frame-only stubs (they touch only profile buffers)'],
   assumptions=[A_NOFAIL, A_WRAP, 'bounded: groups of 1-2 (thorough 1-3) members, group widths 1-3 (thorough 1-4); member lengths and the merged width L are enumerated as concrete shapes (case split), gap vectors and DP result symbolic; identity substitution of path[0] by the case constant KV_L in three malloc sizes (contracts/weave.loops, aln_run.loops)'])
-PROPS['C01'] = dict(level='other', level_text='x', level_note='x', technique='x')
-PROPS['C10'] = dict(level='other', level_text='x', level_note='x', technique='x')
 
 def _run_shapes(tier):
     import itertools
@@ -180,3 +181,141 @@ Q(id='C01.kalign_run', props=['C01', 'C04', 'C03'], cls='B', harness='c01_run.c'
            'build_tree_kmeans / create_msa_tree replaced by contract stubs (require: input de-aligned, >= 2 non-empty sequences; ensure: a well-formed alignment)',
            'convert_msa_to_internal, aln_param_init/free, alloc_tasks/free_tasks: frame-only stubs (each has its own contract query)'],
   assumptions=[A_NOFAIL, A_WRAP, 'bounded: 2-3 sequences of 0-3 residues, gap counts 0-2, widths case-split; data invariant of detect_aligned instantiated: status UNALIGNED only if all gap counts are 0'])
+
+# =========================================================================== C07 / C08 kernels
+def _kernel_shapes(tier):
+    out = []
+    rows = [1, 2] if tier == 'quick' else [1, 2, 3]
+    lbs = [2, 3] if tier == 'quick' else [2, 3, 4]
+    for r in rows:
+        for lb in lbs:
+            for sb in (0, 1):
+                for eb in (lb - 1, lb):
+                    if eb - sb < 1:
+                        continue
+                    out.append(dict(name='rows%d_lb%d_sb%d_eb%d' % (r, lb, sb, eb), defs=dict(KV_ROWS=r, KV_LB=lb, KV_SB=sb, KV_EB=eb)))
+    return out
+A_KFLOAT = 'penalties in [0,1000], substitution scores in [-1000,1000], boundary states -FLT_MAX or in [-1e5,1e5] (no overflow to infinity, no NaN)'
+Q(id='C07.seqseq.fwd_ref', props=['C07', 'C08'], cls='B', harness='c07_seqseq.c', entry='h_c07_fwd_ref', shapes=_kernel_shapes,
+  mode='wrap', unwind=8, timeout=1500, funcs=['aln_seqseq_foward'], trusted=[TRUST_MSG],
+  assumptions=[A_FLOAT, A_KFLOAT, A_WRAP, 'bounded: rectangles of 1-2 (thorough 1-3) rows x 2-3 (thorough 2-4) columns, every start/end-of-b combination, 3 residue codes with a symbolic 3x3 matrix'],
+  native_srcs=['lib/src/tldevel.c'])
+Q(id='C07.seqseq.bwd_mirror', props=['C07', 'C08'], cls='B', harness='c07_seqseq.c', entry='h_c07_bwd_mirror', shapes=_kernel_shapes, defs=['-DKV_ENTRY_MIRROR'],
+  mode='wrap', unwind=8, timeout=1500, funcs=['aln_seqseq_backward', 'aln_seqseq_foward'], trusted=[TRUST_MSG],
+  assumptions=[A_FLOAT, A_KFLOAT, A_WRAP, 'bounded: same rectangles as C07.seqseq.fwd_ref'],
+  native_srcs=['lib/src/tldevel.c'])
+
+# =========================================================================== static facts (S)
+def S(**kw):
+    STATIC_FACTS.append(kw)
+
+ALIGN_STAGE_FILES = ['lib/src/aln_*.c', 'lib/src/bisectingKmeans.c', 'lib/src/bpm.c', 'lib/src/sequence_distance.c',
+                     'lib/src/weave_alignment.c', 'lib/src/pick_anchor.c', 'lib/src/euclidean_dist.c', 'lib/src/task.c']
+S(id='seq_bytes_not_read_by_aligner', props=['C14', 'C01'], kind='sites_equal', pattern=r'->\s*seq\b', files=ALIGN_STAGE_FILES, expected=[],
+  text='no function of the alignment stage (tree building, distance, DP kernels, weaving) touches the residue bytes seq->seq: the gap pattern is computed from the internal codes s[] only, residue bytes are only copied by make_linear_sequence')
+S(id='internal_code_writers', props=['C14', 'C05'], kind='sites_equal', pattern=r'->\s*s\s*\[', files=['lib/src/msa_*.c', 'lib/src/aln_*.c', 'lib/src/bisectingKmeans.c', 'lib/src/bpm.c', 'lib/src/sequence_distance.c', 'lib/src/weave_alignment.c', 'lib/src/pick_anchor.c', 'lib/src/alphabet.c'],
+  expected=['lib/src/msa_op.c:convert_msa_to_internal', 'lib/src/msa_op.c:msa_seq_cpy'],
+  text='the internal code array ->s[..] is indexed (hence possibly written) only in convert_msa_to_internal (proved: every element < L) and msa_seq_cpy (copies)')
+S(id='rank_sites', props=['C03', 'C01'], kind='sites_equal', pattern=r'->\s*rank\b', files=['lib/src/*.c', 'src/*.c'],
+  expected=['lib/src/msa_alloc.c:alloc_msa_seq', 'lib/src/msa_check.c:kalign_essential_input_check', 'lib/src/msa_op.c:msa_seq_cpy', 'lib/src/msa_sort.c:sort_by_rank'],
+  text='the caller-order rank is written by kalign_essential_input_check (and constructors/copy) and read only by sort_by_rank: no computation depends on the input position')
+S(id='rng_sites', props=['C03', 'C16', 'C02'], kind='sites_equal',
+  pattern=r'\b(tl_random_\w+|rand|srand|random|drand48|init_rng|init_rng_from_rng)\s*\(', files=['lib/src/*.c', 'src/*.c'],
+  expected=['lib/src/bpm_test.c:bpm_test', 'lib/src/bpm_test.c:mutate_seq', 'lib/src/euclidean_dist.c:main', 'lib/src/msa_sort.c:msa_shuffle_seq', 'lib/src/task.c:main',
+            'lib/src/tlrng.c:<file scope>', 'lib/src/tlrng.c:tl_gauss', 'lib/src/tlrng.c:tl_random_gaussian', 'lib/src/tlrng.c:tl_random_int',
+            'lib/src/tlrng.c:tl_standard_exponential', 'lib/src/tlrng.c:tl_standard_gamma'],
+  text='random numbers are drawn only inside tlrng.c itself, unit-test mains (UTEST builds), bpm_test.c and msa_shuffle_seq')
+S(id='shuffle_not_called', props=['C03', 'C16', 'C02'], kind='sites_equal', pattern=r'\bmsa_shuffle_seq\s*\(', files=['lib/src/*.c', 'src/*.c'],
+  expected=['lib/src/msa_sort.c:<file scope>'],
+  text='msa_shuffle_seq (the only library function that draws random numbers) is defined but never called from library or CLI code')
+S(id='static_storage', props=['C16', 'C02'], kind='static_storage', files=['lib/src/*.c', 'src/*.c'],
+  expected=['lib/src/bpm.c: __m256i BROADCAST_MASK[16]', 'lib/src/esl_stopwatch.c: local: static double timeConvert = 0.0;',
+            'lib/src/tlrng.c: local: static const uint64_t JUMP[] =', 'lib/src/tlrng.c: local: static const uint64_t LONG_JUMP[] =',
+            'src/run_kalign.c: local: static struct option long_options[] =', 'src/run_reformat.c: local: static struct option long_options[] ='],
+  text='complete list of objects with static storage duration in lib/src and src: the AVX2 mask table (constant stores, AVX2 builds only), two const jump tables, a Mach-only timer constant and getopt option tables -- no mutable state survives a library call')
+S(id='omp_threadnum_absent', props=['C02'], kind='absent', pattern=r'omp_get_thread_num|omp_get_num_threads|#\s*pragma\s+omp\s+(critical|atomic|ordered|flush)', files=['lib/src/*.c'], keep_pp=True,
+  text='no code depends on the thread id / team size and there are no critical/atomic sections (results cannot depend on which thread ran a task)')
+S(id='omp_tree_merge_order', props=['C02', 'C10'], kind='order', files=['lib/src/aln_run.c'], function='recursive_aln', keep_pp=True,
+  sequence=[r'#pragma omp task', r'recursive_aln\(msa, t, ap, active, a\)', r'#pragma omp task', r'recursive_aln\(msa, t, ap, active, b\)', r'#pragma omp taskwait', r'alloc_aln_mem\(&ml', r'do_align\(msa,t,ml,c\)', r'free_aln_mem\(ml\)'],
+  text='recursive_aln: both child merges are spawned as tasks, a taskwait follows, and only then the merge of this node runs, with an aln_mem allocated privately for this merge')
+S(id='omp_hirschberg_order', props=['C02'], kind='order', files=['lib/src/aln_controller.c'], function='aln_runner', keep_pp=True,
+  sequence=[r'#pragma omp task', r'aln_seqseq_foward\(m\)', r'#pragma omp task', r'aln_seqseq_backward\(m\)', r'#pragma omp taskwait', r'aln_seqseq_meetup\(',
+            r'#pragma omp task', r'aln_profileprofile_foward\(m\)', r'#pragma omp task', r'aln_profileprofile_backward\(m\)', r'#pragma omp taskwait', r'aln_profileprofile_meetup\(',
+            r'#pragma omp task', r'aln_seqprofile_foward\(m\)', r'#pragma omp task', r'aln_seqprofile_backward\(m\)', r'#pragma omp taskwait', r'aln_seqprofile_meetup\('],
+  text='aln_runner: forward and backward halves are two tasks, joined by taskwait before the meet-in-the-middle step, for each of the three kernels')
+S(id='omp_kmeans_order', props=['C02'], kind='order', files=['lib/src/bisectingKmeans.c'], function='bisecting_kmeans', keep_pp=True,
+  sequence=[r'#pragma omp task', r'split2\([^;]*&res\[0\]\)', r'#pragma omp task', r'split2\([^;]*&res\[1\]\)', r'#pragma omp task', r'split2\([^;]*&res\[2\]\)',
+            r'#pragma omp task', r'split2\([^;]*&res\[3\]\)', r'#pragma omp taskwait', r'for\(j = 0; j < 4;j\+\+\)',
+            r'#pragma omp task', r'bisecting_kmeans\(msa,&n->left', r'#pragma omp task', r'bisecting_kmeans\(msa,&n->right', r'#pragma omp taskwait', r'\*ret_n =n'],
+  text='bisecting_kmeans: four restarts write res[0..3] as separate tasks, taskwait, then a fixed-order reduction; the two recursive halves are tasks joined by taskwait')
+S(id='omp_set_num_threads_each_call', props=['C16', 'C02'], kind='order', files=['lib/src/aln_wrap.c'], function='kalign_run', keep_pp=True,
+  sequence=[r'kalign_essential_input_check', r'omp_set_num_threads\(n_threads\)', r'build_tree_kmeans'],
+  text='kalign_run sets the OpenMP thread count from its argument on every call, before any parallel region')
+
+
+# =========================================================================== property metadata (MANIFEST / evidence)
+T_CB = 'CBMC function contracts on the real sources'
+EXPL_COMMON = ('Obligation classes are kept apart: coverage.obligations/discharged count only (P) queries (unbounded in the input size or full-domain, loop contracts or complete unwinding of constant loops); '
+               'coverage.bounded reports the (B) stand-ins (same contract, same real function, loops unwound on enumerated concrete shapes, contents symbolic); coverage.static_facts the (S) syntactic premises. ')
+
+PROPS['C01'] = dict(
+    level='other',
+    level_text=('bounded contract check of the real merge step (do_align / add_gap_info_to_path_n / mirror_path_n / make_seq / update_gaps) for every small shape with symbolic gap vectors and '
+                'any DP result, and of the real kalign_run protocol (input check, rank, de-alignment, canonical sort, finalise, sort-by-rank, array export) on small inputs with the tree/DP stages '
+                'replaced by contract stubs: rows, names, order, row length, de-gapped row == input bytes, only gap characters added, no all-gap column; '
+                'unbounded proofs only for the pieces shared with C05/C14 (convert_msa_to_internal)'),
+    level_note=('bounded (group sizes 1-2(3), widths 1-4, 2-3 sequences of 0-3 residues); DP abstracted by assumed contract ALN-1 (monotone alignment without adjacent opposite gaps); '
+                'float profile routines, qsort, stopwatch and diagnostics are stubs; writers (file output) are not covered by a finished check; sum-over-array invariants could not be closed by loop contracts (DESIGN 2.2)'),
+    technique=T_CB + ' enforced by harness wrapper, bounded unwinding over enumerated shapes (case split), static facts; native ASan replay',
+    explanation=EXPL_COMMON + 'C01 is decided by bounded queries only; no unbounded claim is made for the weave arithmetic.',
+    assumptions=['composition of per-merge contracts over the guide tree (induction over merges) is a meta-argument, not machine-checked',
+                 'file writers are outside this check'])
+PROPS['C10'] = dict(
+    level='other',
+    level_text=('the projection statement is asserted directly on the real merge code: for every pair of residues of one input group, column order and column equality are the same before and after '
+                'do_align (K3), gap counts never decrease, member lists are concatenated (K4); all shapes up to the bound, gap vectors and DP result symbolic'),
+    level_note='bounded (groups of 1-2(3) members, widths 1-4); DP result abstracted by contract ALN-1; induction over the tree is a meta-argument; OpenMP task order is a static fact',
+    technique=T_CB + ' (harness-enforced), bounded unwinding over enumerated shapes with case split on the merged width; static fact on task/taskwait order',
+    explanation=EXPL_COMMON,
+    assumptions=['induction over merges is a meta-argument'])
+PROPS['C05'] = dict(
+    level='other',
+    level_text=('memory-safety and defined-code obligations (bounds, pointer, overflow, conversion, shift, division checks of CBMC) are discharged together with the functional contracts of '
+                'create_alphabet (P), convert_msa_to_internal (P, loop contracts, any sequence length <= 1000), the merge step (B), kalign_run protocol (B), run_kalign exit-status mapping (P), compare_pair (P)'),
+    level_note=('readers/writers (msa_io.c) are NOT under a finished contract in this round: malformed-file robustness is not decided here; allocation failure paths not explored (malloc assumed to succeed); '
+                'data invariant "residues are ASCII letters" assumed at read sites of convert_msa_to_internal'),
+    technique=T_CB + ' via goto-instrument --dfcc with loop contracts (convert_msa_to_internal, create_alphabet) plus bounded wrapper-enforced harnesses; CBMC built-in safety checks',
+    explanation=EXPL_COMMON + 'Only the listed functions are covered; the byte-string quantifier over input FILES is not reached (readers not under contract).',
+    assumptions=['file readers/writers, getopt loop, OpenMP runtime and AVX2 paths are outside the verified set'])
+PROPS['C13'] = dict(
+    level='other',
+    level_text=('detect_alphabet is checked against both clauses of the property with symbolic letter counts (the 128-entry loops are bounded by the code and completely unwound); '
+                'double arithmetic is bit-precise; bounded because only representative histogram positions carry symbolic counts (0..4095)'),
+    level_note='log() replaced by interval axioms; counts bounded; representatives per letter class instead of all 128 positions (the full-symbolic query did not finish in 15 min)',
+    technique=T_CB + ' (harness-enforced post-conditions), complete unwinding, SAT (cadical) with bit-precise IEEE doubles; native replay',
+    explanation=EXPL_COMMON,
+    assumptions=['order / naming independence: letter_freq is the only input of detect_alphabet (frame), filled by ++ per byte in the readers (not re-checked here)'])
+PROPS['C14'] = dict(
+    level='other',
+    level_text=('create_alphabet proved (P) for an arbitrary table index: upper/lower case share a code, U == T in the nucleotide alphabet; convert_msa_to_internal proved (P) to write exactly that code for every residue; '
+                'static fact: no alignment-stage function reads the residue bytes; detect_alphabet treats both cases alike on the checked representatives (C13 premise-1 query)'),
+    level_note='non-interference (gap pattern is a function of s[], lengths and names only) is a meta-argument on top of the static fact; detect_alphabet part is bounded',
+    technique=T_CB + ' via goto-instrument --dfcc (ghost index), loop contracts, complete unwinding of constant loops; static facts',
+    explanation=EXPL_COMMON,
+    assumptions=['meta-argument: the alignment is computed from s[], len and names only (supported by static fact seq_bytes_not_read_by_aligner)'])
+PROPS['C17'] = dict(
+    level='other',
+    level_text=('compare_pair proved (P) for any row width <= 1000 with four loop contracts: reproduced <= reference relations, equal relation totals, counters monotone; '
+                'kalign_msa_compare (3 rows, any width) proved to divide with 0 <= a <= b, b > 0 using that contract; exactness, the value 100 and row-order independence checked (B) against an independent count on 2-3 rows x 2-4 columns'),
+    level_note='exactness is bounded; IEEE monotonicity of (float)(100.0*a/b) assumed beyond the bounded shapes; qsort stub; alignments passed in FINAL state',
+    technique=T_CB + ' via goto-instrument --dfcc, loop contracts with ghost snapshots, contract replacement at the call site; bounded wrapper harness for exactness; native replay',
+    explanation=EXPL_COMMON,
+    assumptions=['premise of C17 (same sequences in both alignments) instantiated as equal residue counts per row'])
+PROPS['C07'] = dict(
+    level='other',
+    level_text=('component contracts on small rectangles with symbolic residues / scores / penalties / boundary states: the forward kernel equals the three-state affine recurrence written independently as a full-matrix programme (bit for bit), '
+                'the backward kernel equals the forward kernel on reversed operands'),
+    level_note='bounded (1-3 rows x 2-4 columns); sequence-sequence kernel only in this round; meet-in-the-middle, recursion and profile kernels are not under a finished contract; no end-to-end optimality claim',
+    technique=T_CB + ' (harness-enforced), bounded complete unwinding, bit-precise floats',
+    explanation=EXPL_COMMON + 'C07 is only partially decided: see level_note.',
+    assumptions=['Hirschberg composition is a meta-argument'])
